@@ -559,9 +559,11 @@ class ProbeEngine(object):
                 if k == 0:
                     ch.dead = True
                     w.probe("dead_chip")
+                    w.fault("dead_chip")
                 elif k == 1:
                     ch.unresponsive = ["silent", "p2p_timeout"][t.draw(2)]
                     w.probe("unresponsive_chip")
+                    w.fault("unresponsive_chip")
             if t.draw(6) == 0 and xy != m.root:
                 ch.ip = "10.1.%d.%d" % (xy[0], xy[1])
                 ch.eth_up = bool(t.draw(2))
